@@ -985,7 +985,7 @@ fn run_rf(mon: &Monitor, lc: &mut Local, rng: &mut Rng) {
 // ---------------------------------------------------------------------------------------------
 
 const SCALES: [(f64, &str); 10] = [(1e-9, "1e-9"), (1e-6, "1e-6"), (1e-4, "1e-4"), (1e-3, "1e-3"), (1e-2, "1e-2"), (1.0, "1"), (1e3, "1e3"), (1e9, "1e9"), (1e15, "1e15"), (1e18, "1e18")];
-const BYSTANDERS: [&str; 4] = ["none", "valid", "nan", "inf"];
+const BYSTANDERS: [&str; 5] = ["none", "valid", "nan", "inf", "crowd"];
 
 /// Hoeffding bound on the probability that a sampler whose discordant draws favour the heavy
 /// candidate with p >= 0.8 (proved for Efraimidis-Spirakis / successive sampling with a 4x
@@ -1012,13 +1012,15 @@ fn run_frequency(mon: &Monitor, lc: &mut Local, sampler: &mut WeightedSampler, r
     let nby = match by {
         "none" => 0,
         "valid" => rng.urange(1, 8),
+        // lists of 33..60 candidates: the preference must hold whatever the size of the list
+        "crowd" => rng.urange(31, 58),
         _ => 1,
     };
     let (first, second) = if heavy_first { ((heavy.clone(), wh), (light.clone(), wl)) } else { ((light.clone(), wl), (heavy.clone(), wh)) };
     let mut bys: Vec<(NodeId, f64)> = (0..nby)
         .map(|_| {
             let w = match by {
-                "valid" => scale * (0.25 + 4.0 * rng.f64()),
+                "valid" | "crowd" => scale * (0.25 + 4.0 * rng.f64()),
                 "nan" => f64::NAN,
                 _ => f64::INFINITY,
             };
@@ -1026,7 +1028,7 @@ fn run_frequency(mon: &Monitor, lc: &mut Local, sampler: &mut WeightedSampler, r
         })
         .collect();
     // hostile bystanders go between / after the pair (listed first they simply win every draw)
-    let slots = if by == "valid" { 3 } else { 2 };
+    let slots = if by == "valid" || by == "crowd" { 3 } else { 2 };
     let mut parts: Vec<Vec<(NodeId, f64)>> = vec![Vec::new(); 3];
     while let Some(b) = bys.pop() {
         let s = if slots == 3 { rng.usize_below(3) } else { 1 + rng.usize_below(2) };
